@@ -224,6 +224,9 @@ struct Scenario {
     readers: Vec<usize>,
     /// thread `a` gets `k` grants and then nothing until every other thread has finished its program
     park: Option<(usize, usize)>,
+    /// inside the commit gap: the dropping thread gets `d` grants (entering the call included), then the committer `k`
+    /// more, then the drop is finished (None: the whole drop runs at once)
+    drop_split: Option<(usize, usize)>,
 }
 
 fn open_db(file: &Arc<MemFile>, cache: usize) -> Database {
@@ -354,10 +357,104 @@ struct Outcome {
     violations: Vec<(String, String)>,
     interleaved: bool,
     digests: Vec<String>,
+    /// commit-gap scenarios: the committer's initial state + the grant log (input of the CommitGap model), and what the
+    /// implementation's tracker and the two system tables look like right after the commit
+    cg_case: Option<String>,
+    cg_impl: Option<String>,
+}
+
+/// an order-0 page unit as one number (the CommitGap model's page ids)
+fn unit(region: u32, i: u32) -> u64 {
+    (u64::from(region) << 32) | u64::from(i)
+}
+
+fn units(pages: &[redb::verif::VPage]) -> Vec<u64> {
+    let mut v = vec![];
+    for p in pages {
+        for i in p.order0_range() {
+            v.push(unit(p.region, i));
+        }
+    }
+    v
+}
+
+fn join_u(v: &[u64]) -> String {
+    v.iter().map(|x| x.to_string()).collect::<Vec<_>>().join(".")
+}
+
+fn table_text(t: &BTreeMap<u64, Vec<u64>>) -> String {
+    t.iter().map(|(k, v)| format!("{k}:{}", join_u(v))).collect::<Vec<_>>().join(";")
+}
+
+fn tracker_text(t: &redb::verif::VTracker) -> String {
+    format!(
+        "live={}|valid={}|pending={}",
+        t.live_read_transactions.iter().map(|(a, b)| format!("{a}:{b}")).collect::<Vec<_>>().join(","),
+        t.valid_savepoints.iter().map(|(a, b)| format!("{a}:{b}")).collect::<Vec<_>>().join(","),
+        t.pending_non_durable_commits.iter().map(|(a, b)| format!("{a}:{b}")).collect::<Vec<_>>().join(",")
+    )
+}
+
+/// DATA_FREED / DATA_ALLOCATED as the committed roots + the in-memory records of non-durable commits have them
+fn system_tables_of(reach: &redb::verif::VReach, mem: &redb::verif::VMem) -> (BTreeMap<u64, Vec<u64>>, BTreeMap<u64, Vec<u64>>) {
+    let (mut freed, mut alloc): (BTreeMap<u64, Vec<u64>>, BTreeMap<u64, Vec<u64>>) = (BTreeMap::new(), BTreeMap::new());
+    for l in &reach.data_freed {
+        freed.entry(l.transaction_id).or_default().extend(units(&l.pages));
+    }
+    for (t, pages) in &mem.unpersisted.data_freed {
+        if !pages.is_empty() {
+            freed.entry(*t).or_default().extend(units(pages));
+        }
+    }
+    for l in &reach.data_allocated {
+        alloc.entry(l.transaction_id).or_default().extend(units(&l.pages));
+    }
+    for (t, pages) in &mem.unpersisted.allocations {
+        if !pages.is_empty() {
+            alloc.entry(*t).or_default().extend(units(pages));
+        }
+    }
+    (freed, alloc)
+}
+
+/// the state the committer of the shared transaction starts from (input of the model Conc/CommitGap.v)
+fn cg_initial_state(tx: &WriteTransaction) -> Result<String, String> {
+    let snap = tx.verif_snapshot();
+    let latest = snap.db.mem.latest().clone();
+    let reach = rv_harness::catch(|| tx.verif_reach(latest.data_root, latest.system_root)).map_err(|p| format!("reach panicked: {p}"))?.map_err(|e| format!("reach: {e}"))?;
+    let (freed, alloc) = system_tables_of(&reach, &snap.db.mem);
+    let allocated: Vec<u64> = snap.db.mem.allocated_order0().into_iter().map(|(r, i)| unit(r, i)).collect();
+    let own_alloc = if format!("{:?}", snap.page_tracker.state) == "Track" { units(&snap.page_tracker.pages) } else { vec![] };
+    Ok(format!(
+        "txid={}|last={}|{}|freed={}|alloc={}|allocated={}|ownfreed={}|ownalloc={}",
+        snap.transaction_id,
+        latest.transaction_id,
+        tracker_text(&snap.db.tracker),
+        table_text(&freed),
+        table_text(&alloc),
+        join_u(&allocated),
+        join_u(&units(&snap.data_freed_pages)),
+        join_u(&own_alloc)
+    ))
+}
+
+/// what is observable right after the commit: published id, tracker, keys of the two system tables
+fn cg_final_state(db: &Database) -> Result<String, String> {
+    let snap = db.verif_snapshot();
+    let latest = snap.mem.latest().clone();
+    let reach = rv_harness::catch(|| db.verif_reach(latest.data_root, latest.system_root)).map_err(|p| format!("reach panicked: {p}"))?.map_err(|e| format!("reach: {e}"))?;
+    let (freed, alloc) = system_tables_of(&reach, &snap.mem);
+    Ok(format!(
+        "last={}|{}|freed={}|alloc={}",
+        latest.transaction_id,
+        tracker_text(&snap.tracker),
+        freed.keys().map(|k| k.to_string()).collect::<Vec<_>>().join(","),
+        alloc.keys().map(|k| k.to_string()).collect::<Vec<_>>().join(",")
+    ))
 }
 
 fn execute(sc: &Scenario, ctl: &Arc<Controller>) -> Outcome {
-    let mut out = Outcome { log: vec![], results: vec![], tracking: String::new(), dirty: false, violations: vec![], interleaved: false, digests: vec![] };
+    let mut out = Outcome { log: vec![], results: vec![], tracking: String::new(), dirty: false, violations: vec![], interleaved: false, digests: vec![], cg_case: None, cg_impl: None };
     let file = MemFile::new();
     let db = open_db(&file, sc.cache);
     let all_tables: BTreeSet<u64> = sc.progs.iter().flatten().filter_map(|c| if let Call::Open(t) = c { Some(*t) } else { None }).collect();
@@ -608,50 +705,94 @@ fn execute(sc: &Scenario, ctl: &Arc<Controller>) -> Outcome {
     let mut tx = unsafe { *Box::from_raw(txp as *mut WriteTransaction) };
     if let Some(g) = sc.commit_gap {
         // the durable commit runs on worker 0 and is stopped between two of its lock-protected sections; a
-        // Savepoint is dropped on worker 1 right there (the window the epilogue's horizon clamp exists for)
+        // Savepoint is dropped on worker 1 right there (the window the epilogue's horizon clamp exists for).
+        // Every grant and the event it ended with is logged: the extracted CommitGap model replays them one by one.
+        let initial = cg_initial_state(&tx);
+        let victim: Option<(u64, (u64, u64))> = sh.savepoints.lock().unwrap().iter().next().map(|(h, sp)| {
+            let r = sp.verif_record();
+            (*h, (r.id, r.transaction_id))
+        });
         ctl.set_blocking(COMMIT_ALPHABET);
-        let res: Arc<Mutex<Option<String>>> = Arc::new(Mutex::new(None));
         ctl.submit(0, Box::new(move || match tx.commit() {
             Ok(()) => "ok".into(),
             Err(e) => format!("ERR({e})"),
         }));
+        let mut grants: Vec<String> = vec![];
         let mut done: Option<String> = None;
-        for _ in 0..g {
-            match ctl.step(0) {
-                Event::At(_) => {}
+        let mut dropped: Option<String> = None;
+        let mut drop_started = false;
+        // one grant to thread t; false = stop (hung)
+        let step = |t: usize, grants: &mut Vec<String>, done: &mut Option<String>, dropped: &mut Option<String>, out: &mut Outcome| -> bool {
+            match ctl.step(t) {
+                Event::At(p) => grants.push(format!("{t}>{p}")),
                 Event::Done(r) => {
-                    done = Some(r);
-                    break;
+                    grants.push(format!("{t}>done"));
+                    if t == 0 { *done = Some(r) } else { *dropped = Some(r) }
                 }
                 e => {
-                    out.violations.push(("c16-hung".into(), format!("commit on a worker: {e:?}")));
+                    out.violations.push(("c16-hung".into(), format!("inside the commit gap, thread {t}: {e:?}")));
+                    return false;
+                }
+            }
+            true
+        };
+        for _ in 0..g {
+            if done.is_some() {
+                break;
+            }
+            if !step(0, &mut grants, &mut done, &mut dropped, &mut out) {
+                return out;
+            }
+        }
+        if let (Some((h, _)), None) = (victim, &done) {
+            ctl.submit(1, job(sh.clone(), Call::DropSavepoint(h)));
+            drop_started = true;
+            let (d, k) = sc.drop_split.unwrap_or((usize::MAX, 0));
+            let mut given = 0usize;
+            while dropped.is_none() && given < d {
+                if !step(1, &mut grants, &mut done, &mut dropped, &mut out) {
+                    return out;
+                }
+                given += 1;
+            }
+            for _ in 0..k {
+                if done.is_some() || dropped.is_some() {
+                    break;
+                }
+                if !step(0, &mut grants, &mut done, &mut dropped, &mut out) {
                     return out;
                 }
             }
-        }
-        let h = sh.savepoints.lock().unwrap().keys().next().copied();
-        if let (Some(h), None) = (h, &done) {
-            let (ev, _) = ctl.run_call(1, job(sh.clone(), Call::DropSavepoint(h)));
-            if ev != Event::Done("ok".into()) {
-                out.violations.push(("c16-call-failed".into(), format!("Savepoint drop inside the commit: {ev:?}")));
+            while dropped.is_none() {
+                if !step(1, &mut grants, &mut done, &mut dropped, &mut out) {
+                    return out;
+                }
+            }
+            if dropped.as_deref() != Some("ok") {
+                out.violations.push(("c16-call-failed".into(), format!("Savepoint drop inside the commit: {dropped:?}")));
             }
             out.results.push(format!("1:R{h}@commit-gap{g}=ok"));
         }
         while done.is_none() {
-            match ctl.step(0) {
-                Event::At(_) => {}
-                Event::Done(r) => done = Some(r),
-                e => {
-                    out.violations.push(("c16-hung".into(), format!("commit on a worker: {e:?}")));
-                    return out;
-                }
+            if !step(0, &mut grants, &mut done, &mut dropped, &mut out) {
+                return out;
             }
         }
-        let _ = res;
         ctl.set_blocking(ALPHABET);
         if done.as_deref() != Some("ok") {
             out.violations.push(("c16-end-failed".into(), format!("commit: {done:?}")));
             return out;
+        }
+        match (initial, cg_final_state(&db)) {
+            (Ok(i), Ok(f)) => {
+                let drop_text = match (victim, drop_started) {
+                    (Some((_, (id, t))), true) => format!("{id}:{t}"),
+                    _ => String::new(),
+                };
+                out.cg_case = Some(format!("{i}|drop={drop_text}|grants={}", grants.join(" ")));
+                out.cg_impl = Some(f);
+            }
+            (Err(e), _) | (_, Err(e)) => out.violations.push(("c16-snapshot-failed".into(), format!("commit gap: {e}"))),
         }
         return finish_checks(sc, db, sh, out, all_tables, spec, mspec, base_spec, base_mspec, hist);
     }
@@ -1036,9 +1177,31 @@ fn gen_scenarios(rng: &mut Rng, thorough: bool) -> Vec<Scenario> {
                     push(
                         Scenario { id: 0, kind: format!("cgapr-sp{pre_at}-r{}-g{g}", rs.iter().map(|x| x.to_string()).collect::<Vec<_>>().join("")), nthreads: 2, progs,
                                    pre_savepoint: true, end: 0, cache: caches[g % 3], sched_seed: rng.next_u64(), window: None, commit_gap: Some(g),
-                                   prelude, pre_at, readers: rs.to_vec(), park: None },
+                                   prelude, pre_at, readers: rs.to_vec(), park: None, drop_split: None },
                         &mut v,
                     );
+                }
+            }
+        }
+    }
+    // ---- the same history, the dropping thread stopped INSIDE Savepoint::drop: after d grants (2 = between its two tracker
+    // sections, 3 = after the second pause point it passes, if it has not returned yet) the committer runs k more sections,
+    // then the drop is finished
+    let split_readers: [&[usize]; 3] = [&[2], &[1, 2], &[0]];
+    for pre_at in 0..3usize {
+        for rs in split_readers {
+            for g in [1usize, 2, 3, 4, 8, 9, 10] {
+                for (d, k) in [(2usize, 1usize), (2, 2), (2, 3), (2, 6), (3, 3)] {
+                    if thorough || (g + pre_at + rs.len() + d + k) % 2 == 0 || g <= 3 {
+                        let prelude = alloc_free(rng, 150 + 50 * (g as u64 % 4));
+                        let progs = vec![stream(rng, 0, 6), vec![]];
+                        push(
+                            Scenario { id: 0, kind: format!("cgaps-sp{pre_at}-r{}-g{g}-d{d}-k{k}", rs.iter().map(|x| x.to_string()).collect::<Vec<_>>().join("")),
+                                       nthreads: 2, progs, pre_savepoint: true, end: 0, cache: caches[g % 3], sched_seed: rng.next_u64(), window: None,
+                                       commit_gap: Some(g), prelude, pre_at, readers: rs.to_vec(), park: None, drop_split: Some((d, k)) },
+                            &mut v,
+                        );
+                    }
                 }
             }
         }
@@ -1086,7 +1249,7 @@ fn gen_scenarios(rng: &mut Rng, thorough: bool) -> Vec<Scenario> {
             Scenario { id: 0, kind: format!("hist-{nt}-p{}-sp{}-r{}-{}", prelude.len(), if pre { pre_at.to_string() } else { "x".into() },
                                             readers.iter().map(|x| x.to_string()).collect::<Vec<_>>().join(""), gap.map(|g| format!("g{g}")).unwrap_or_else(|| format!("e{end}"))),
                        nthreads: nt, progs, pre_savepoint: pre, end, cache: caches[i % 3], sched_seed: rng.next_u64(),
-                       window: if gap.is_some() { Some((nt - 1, 30, 0)) } else { None }, commit_gap: gap, prelude, pre_at, readers, park: None },
+                       window: if gap.is_some() { Some((nt - 1, 30, 0)) } else { None }, commit_gap: gap, prelude, pre_at, readers, park: None, drop_split: None },
             &mut v,
         );
     }
@@ -1103,7 +1266,7 @@ fn gen_scenarios(rng: &mut Rng, thorough: bool) -> Vec<Scenario> {
                     push(
                         Scenario { id: 0, kind: format!("psp-park-n{nsp}-a{a}-k{k}-e{end}"), nthreads: nsp, progs, pre_savepoint: (a + k) % 3 == 0, end,
                                    cache: caches[(a + k) % 3], sched_seed: rng.next_u64(), window: None, commit_gap: None, prelude: vec![], pre_at: usize::MAX,
-                                   readers: vec![], park: Some((a, k)) },
+                                   readers: vec![], park: Some((a, k)), drop_split: None },
                         &mut v,
                     );
                 }
@@ -1144,7 +1307,7 @@ fn gen_scenarios(rng: &mut Rng, thorough: bool) -> Vec<Scenario> {
         push(
             Scenario { id: 0, kind: format!("psp-rand-{nt}{}", if with_tables { "-tables" } else { "" }), nthreads: nt, progs, pre_savepoint: rng.chance(1, 4),
                        end: if i % 5 == 4 { 2 } else { 0 }, cache: caches[i % 3], sched_seed: rng.next_u64(), window: None, commit_gap: None,
-                       pre_at: rng.below(np as u64 + 1) as usize, readers: if rng.chance(1, 3) { vec![np] } else { vec![] }, prelude, park: None },
+                       pre_at: rng.below(np as u64 + 1) as usize, readers: if rng.chance(1, 3) { vec![np] } else { vec![] }, prelude, park: None, drop_split: None },
             &mut v,
         );
     }
@@ -1166,6 +1329,9 @@ fn main() {
     let mut orc = std::io::BufWriter::new(std::fs::File::create("oracle.txt").unwrap());
     // what a scenario does outside the shared transaction's thread phase (for replays; cases.txt keeps the model's format)
     let mut hst = std::io::BufWriter::new(std::fs::File::create("history.txt").unwrap());
+    // commit-gap scenarios: input and implementation outcome for the model Conc/CommitGap.v
+    let mut cgc = std::io::BufWriter::new(std::fs::File::create("cg_cases.txt").unwrap());
+    let mut cgi = std::io::BufWriter::new(std::fs::File::create("cg_impl.txt").unwrap());
     let (mut nint, mut nviol, mut steps) = (0usize, 0usize, 0usize);
     let mut distinct = BTreeSet::new();
     let mut kinds: BTreeMap<String, usize> = BTreeMap::new();
@@ -1192,6 +1358,12 @@ fn main() {
                 sc.id, if sc.pre_savepoint { sc.pre_at.min(sc.prelude.len()).to_string() } else { "-".into() }, sc.readers, sc.commit_gap, sc.park, pre.join(" ; ")).unwrap();
         }
         writeln!(imp, "{}|{}|tracking={} dirty={}|{}", sc.id, out.results.join(" "), out.tracking, u8::from(out.dirty), out.digests.join(" ")).unwrap();
+        if let (Some(c), Some(i)) = (&out.cg_case, &out.cg_impl) {
+            writeln!(cgc, "{}|{}|{c}", sc.id, sc.kind).unwrap();
+            writeln!(cgi, "{}|{i}", sc.id).unwrap();
+            cgc.flush().unwrap();
+            cgi.flush().unwrap();
+        }
         if out.interleaved {
             nint += 1;
             distinct.insert(out.log.join(" "));
